@@ -211,6 +211,37 @@ def run(ctx):
     for b, k in found.items():
         if k == 0:
             ctx.viol("F3", fa, fa.node, "no CountError raise for %s: the bound is not enforced" % b, construct="_findall: %s not enforced" % b)
+    # both bounds are examined on every path to a normal return: a result is only returned after, for each bound, either
+    # `bound is None` held or the comparison with the match count came out within the bound
+    rets_cfg = cfg.stmt_nodes(("return",))
+    for b in ("mincount", "maxcount"):
+        passes = []
+        for g in cfg.nodes:
+            if g.kind != "guard":
+                continue
+            nt = none_test(g.cond)
+            if nt is not None and nt[0] == b and (nt[1] is True) == (g.outcome is True):
+                passes.append(g)  # bound is None
+                continue
+            c = g.cond
+            if isinstance(c, ast.Compare) and len(c.ops) == 1 and isinstance(c.ops[0], (ast.Lt, ast.LtE, ast.Gt, ast.GtE)):
+                l, r, op = c.left, c.comparators[0], type(c.ops[0])
+                if is_len(r) and not is_len(l):
+                    l, r = r, l
+                    op = {ast.Lt: ast.Gt, ast.LtE: ast.GtE, ast.Gt: ast.Lt, ast.GtE: ast.LtE}[op]
+                if is_len(l) and isinstance(r, ast.Name) and r.id == b:
+                    viol_op = ast.Lt if b == "mincount" else ast.Gt
+                    within = {ast.Lt: ast.GtE, ast.LtE: ast.Gt, ast.Gt: ast.LtE, ast.GtE: ast.Lt}[viol_op]
+                    eff = op if g.outcome else {ast.Lt: ast.GtE, ast.LtE: ast.Gt, ast.Gt: ast.LtE, ast.GtE: ast.Lt}[op]
+                    if eff is within:
+                        passes.append(g)
+        reach = cfg.reach_from(cfg.entry, avoid=passes, labels_excluded=("exc",))
+        leak = [r for r in rets_cfg if r.id in reach]
+        if leak:
+            ctx.viol("F3", fa, leak[0].ast, "a result is returned on a path that never examined %s (neither `%s is None` nor the "
+                     "comparison with the match count): the bound is not enforced there" % (b, b), construct="_findall: %s unchecked path" % b)
+        else:
+            ctx.inst("F3", fa, fa.node.name, "%s examined on every path to a return" % b)
     rule_optint_truthiness(ctx, typer, {S, CS}, rule="F3")
     # ---------------------------------------------------------------- F4
     fb = p.modfunc(S, "_filter_by_name")
